@@ -372,3 +372,272 @@ class FxpShift(_Fxp):
 
     def post(self, c, r, x, k):
         return {"V.type": isinstance(r, c.LinCombFxp), "V.value": Eq(c.v(r), c.v(x) * (1 << k)), "V.inv": c.inv(r)}
+
+
+# ---------------------------------------------------------------------------
+# boolean operands on either side, at OPERATOR level: `fxp OP bool` and `bool OP fxp` go through Python's
+# binary-operator dispatch (LinCombFxp.__op__ declines a LinCombBool, LinCombBool's own operators hand the
+# LinComb on, the reflected fixed-point operator finally answers).  Whatever route is taken, a returned value
+# must be the spec on representations with rep(bool) = b*R.
+# ---------------------------------------------------------------------------
+import operator as _operator
+
+_BOOL_OPS = {
+    "add": (_operator.add, lambda A, B, R: A + B, "fxp"),
+    "sub": (_operator.sub, lambda A, B, R: A - B, "fxp"),
+    "mul": (_operator.mul, lambda A, B, R: _floordiv(imul(A, B), z3.IntVal(R)), "fxp"),
+    "truediv": (_operator.truediv, lambda A, B, R: _floordiv(A * R, B), "fxp"),
+    "floordiv": (_operator.floordiv, lambda A, B, R: _floordiv(A, B) * R, "fxp"),
+    "mod": (_operator.mod, lambda A, B, R: _mod(A, B), "fxp"),
+    "lt": (_operator.lt, lambda A, B, R: If(A < B, 1, 0), "bool"),
+    "le": (_operator.le, lambda A, B, R: If(A <= B, 1, 0), "bool"),
+    "gt": (_operator.gt, lambda A, B, R: If(A > B, 1, 0), "bool"),
+    "ge": (_operator.ge, lambda A, B, R: If(A >= B, 1, 0), "bool"),
+    "eq": (_operator.eq, lambda A, B, R: If(A == B, 1, 0), "bool"),
+    "ne": (_operator.ne, lambda A, B, R: If(A != B, 1, 0), "bool"),
+}
+
+
+@register
+class FxpBoolCells(Contract):
+    """`fxp OP bool` / `bool OP fxp` for every binary operator: the returned value is the spec on representations
+    (rep(bool) = b*R), or the expression raises."""
+    name = "pysnark.fixedpoint:LinCombFxp._ensurefxp#boolean_operand_cells"
+    modules = _Fxp.modules
+    vprops = ("C14",)
+    sprops = eprops = tprops = cprops = ()
+    raises_unspecified = True
+    guard_relevant = False
+    probe = True                      # the subject is an operator expression, not one function
+
+    def use_stub(self, c, *a, **k):
+        return False
+
+    # combinations that are refused on the pinned tree ("or the operation raises"): LinCombBool's comparison operators
+    # insist on a boolean right operand, and fxp / // % bool reach LinComb.__divmod__ with a LinCombBool divisor
+    REFUSED = {("truediv", "fxp_bool"), ("floordiv", "fxp_bool"), ("mod", "fxp_bool"), ("lt", "bool_fxp"), ("le", "bool_fxp"),
+               ("gt", "bool_fxp"), ("ge", "bool_fxp"), ("eq", "bool_fxp"), ("ne", "bool_fxp")}
+
+    def configs(self, tier):
+        return [dict(mode="plain", op=o, side=s, res=r, bits=r + 4, **({"raises_only": True} if (o, s) in self.REFUSED else {}))
+                for o in _BOOL_OPS for s in ("fxp_bool", "bool_fxp") for r in (RES if tier == "quick" else RES + (8,))]
+
+    def setup(self, c, cfg):
+        apply_mode(c, cfg["mode"], bitlength=cfg["bits"])
+        c.w.modules["pysnark.fixedpoint"].resolution = cfg["res"]
+        x = c.mk_fxp(c.operand("x"))
+        b = c.operand_bool("b")
+        fn = _BOOL_OPS[cfg["op"]][0]
+        return (lambda u, v: fn(u, v)), ((x, b) if cfg["side"] == "fxp_bool" else (b, x)), {}
+
+    def post(self, c, r, u, v):
+        R = 1 << c.cfg["res"]
+        rep = lambda o: c.v(o) if isinstance(o, c.LinCombFxp) else c.v(o) * R
+        A, B = rep(u), rep(v)
+        _, spec, kind = _BOOL_OPS[c.cfg["op"]]
+        if r is NotImplemented:
+            return {"V.declined_means_TypeError": True}
+        want = spec(A, B, R)
+        if kind == "fxp":
+            d = {"V.type": isinstance(r, c.LinCombFxp)}
+        else:
+            d = {"V.type": isinstance(r, c.LinCombBool)}
+        if d["V.type"]:
+            d["V.value"] = Eq(c.v(r), want)
+            d["V.inv"] = c.inv(r)
+        return d
+
+
+# ---------------------------------------------------------------------------
+# unary tests, assertions and helpers of LinCombFxp: one-line delegations to the representation.  Their contracts
+# ARE the contracts of the LinComb methods they delegate to (same raise conditions, same S/E clauses), stated on
+# the fixed-point object: a delegation that forwards to a different method, drops an argument or returns
+# something else fails the inherited clauses.
+# ---------------------------------------------------------------------------
+from . import runtime_c as _rc
+
+
+class _FxpUnary(_Fxp):
+    kinds = ("none",)
+    raises_unspecified = False
+
+    def configs(self, tier):
+        return [dict(mode=m, kind="none", res=3, bits=5) for m in ("plain", "ie", "g1", "g0")]
+
+    def setup(self, c, cfg):
+        apply_mode(c, cfg["mode"], bitlength=cfg["bits"])
+        c.w.modules["pysnark.fixedpoint"].resolution = cfg["res"]
+        self._x = c.mk_fxp(c.operand("x"))
+        return getattr(c.LinCombFxp, self.op), (self._x,), {}
+
+    def pre(self, c, x):
+        return [(1 << (c.bitlength + 1)) < c.p]
+
+
+def _delegation(base, owner, method, props, modes=("plain", "ie", "g1", "g0"), bits=5):
+    """Contract of `owner.method(x)` := contract of the LinComb method `base` describes, on the wrapped operand."""
+    wrap = {"LinCombFxp": lambda c, x: c.mk_fxp(x), "LinCombBool": lambda c, x: c.mk_bool(x)}[owner]
+    module = {"LinCombFxp": "pysnark.fixedpoint", "LinCombBool": "pysnark.boolean"}[owner]
+
+    class D(base):
+        name = "%s:%s.%s" % (module, owner, method)
+        __doc__ = "%s.%s(): delegation; inherits the contract of %s" % (owner, method, base.name)
+        modules = _Fxp.modules
+        vprops = tuple(sorted(set(base.vprops) | set(props)))
+        sprops = tuple(sorted(set(base.sprops) | (set(props) if base.sprops else set())))
+        eprops = tuple(sorted(set(base.eprops) | (set(props) if base.eprops else set())))
+        type_errors = ()
+
+        def configs(self, tier):
+            return [dict(mode=m, bits=bits, res=3) for m in modes]
+
+        def setup(self, c, cfg):
+            apply_mode(c, cfg["mode"], bitlength=cfg["bits"])
+            c.w.modules["pysnark.fixedpoint"].resolution = cfg["res"]
+            if owner == "LinCombBool":
+                x = c.operand_bool("x")
+            else:
+                x = wrap(c, c.operand("x"))
+            return getattr(getattr(c, owner), method), (x,), {}
+
+        def use_stub(self, c, *a, **k):
+            return False
+    D.__name__ = "%s_%s" % (owner, method)
+    return register(D)
+
+
+_delegation(_rc.CheckZero, "LinCombFxp", "check_zero", ("C14",))
+_delegation(_rc.CheckNonzero, "LinCombFxp", "check_nonzero", ("C14",))
+_delegation(_rc.CheckPositive, "LinCombFxp", "check_positive", ("C14",))
+_delegation(_rc.AssertZero, "LinCombFxp", "assert_zero", ("C14", "C03"), modes=("plain", "ie", "g1"))
+_delegation(_rc.AssertNonzero, "LinCombFxp", "assert_nonzero", ("C14", "C03"), modes=("plain", "ie", "g1"))
+_delegation(_rc.AssertPositive, "LinCombFxp", "assert_positive", ("C14", "C03"), modes=("plain", "ie", "g1"))
+_delegation(_rc.CheckZero, "LinCombBool", "check_zero", ("C05",))
+_delegation(_rc.CheckPositive, "LinCombBool", "check_positive", ("C05",))
+_delegation(_rc.AssertZero, "LinCombBool", "assert_zero", ("C03",), modes=("plain", "ie", "g1"))
+_delegation(_rc.AssertNonzero, "LinCombBool", "assert_nonzero", ("C03",), modes=("plain", "ie", "g1"))
+_delegation(_rc.AssertPositive, "LinCombBool", "assert_positive", ("C03",), modes=("plain", "ie", "g1"))
+_delegation(_rc.Abs, "LinCombBool", "__abs__", ("C05",), modes=("plain", "g1"))
+
+
+@register
+class FxpPos(_FxpUnary):
+    name = "pysnark.fixedpoint:LinCombFxp.__pos__"
+    op = "__pos__"
+
+    def configs(self, tier):
+        return [dict(mode="plain", kind="none", res=3, bits=5)]
+
+    def post(self, c, r, x):
+        return {"V.same": r is x}
+
+
+@register
+class FxpAbs(_FxpUnary):
+    """abs(x): |representation| (or raises)"""
+    name = "pysnark.fixedpoint:LinCombFxp.__abs__"
+    op = "__abs__"
+    raises_unspecified = True
+
+    def configs(self, tier):
+        return [dict(mode=m, kind="none", res=r, bits=r + 4) for r in RES for m in ("plain", "g1")]
+
+    def post(self, c, r, x):
+        ok = isinstance(r, c.LinCombFxp)
+        X = c.v(x)
+        return {"V.type": ok, "V.value": Implies(isg(c), Eq(c.v(r), If(X >= 0, X, -X))) if ok else False, "V.inv": c.inv(r) if ok else False}
+
+
+@register
+class FxpRShift(_Fxp):
+    """a >> k: floor(representation / 2^k)  (or raises)"""
+    name = "pysnark.fixedpoint:LinCombFxp.__rshift__"
+    op = "__rshift__"
+    kinds = ("none",)
+
+    def configs(self, tier):
+        return [dict(mode="plain", kind="none", res=3, bits=5, k=k) for k in (0, 2)]
+
+    def setup(self, c, cfg):
+        apply_mode(c, cfg["mode"], bitlength=cfg["bits"])
+        c.w.modules["pysnark.fixedpoint"].resolution = cfg["res"]
+        self._x = c.mk_fxp(c.operand("x"))
+        return c.LinCombFxp.__rshift__, (self._x, cfg["k"]), {}
+
+    def post(self, c, r, x, k):
+        from pyvc.sym import shr
+        ok = isinstance(r, c.LinCombFxp)
+        return {"V.type": ok, "V.value": Eq(c.v(r), shr(c.v(x), k)) if ok else False, "V.inv": c.inv(r) if ok else False}
+
+
+@register
+class FxpPow(_Fxp):
+    """a ** k for a public k >= 0: k = 0 -> 1.0, k = 1 -> a, k = 2 -> floor(rep a * rep a / R) (or raises)"""
+    name = "pysnark.fixedpoint:LinCombFxp.__pow__"
+    op = "__pow__"
+    kinds = ("none",)
+
+    def configs(self, tier):
+        return [dict(mode="plain", kind="none", res=r, bits=2 * r + 4, k=k, **({"raises_only": True} if k < 0 else {}))
+                for r in RES for k in (-1, 0, 1, 2)]
+
+    def setup(self, c, cfg):
+        apply_mode(c, cfg["mode"], bitlength=cfg["bits"])
+        c.w.modules["pysnark.fixedpoint"].resolution = cfg["res"]
+        self._x = c.mk_fxp(c.operand("x"))
+        return c.LinCombFxp.__pow__, (self._x, cfg["k"]), {}
+
+    def post(self, c, r, x, k):
+        R = 1 << c.cfg["res"]
+        X = c.v(x)
+        ok = isinstance(r, c.LinCombFxp)
+        d = {"V.type": ok}
+        if ok:
+            want = {0: z3.IntVal(R), 1: X, 2: _floordiv(imul(X, X), z3.IntVal(R))}[k]
+            d["V.value"] = modeq(c.v(r), want, c.p)
+            d["V.inv"] = c.inv(r)
+        return d
+
+
+@register
+class FxpAssertRange(_Fxp):
+    """x.assert_range(lo, hi): lo <= x < hi on the represented numbers is enforced (bounds of any operand kind)"""
+    name = "pysnark.fixedpoint:LinCombFxp.assert_range"
+    op = "assert_range"
+    sprops = ("C03", "C14")
+    eprops = ("C03", "C14")
+    vprops = ("C03", "C14")
+    covers_normal = False
+    raises_unspecified = True
+
+    def configs(self, tier):
+        return [dict(mode=m, kind=k, res=3, bits=6) for m in ("plain", "ie") for k in ("int", "fxp", "float0")]
+
+    def setup(self, c, cfg):
+        apply_mode(c, cfg["mode"], bitlength=cfg["bits"])
+        c.w.modules["pysnark.fixedpoint"].resolution = cfg["res"]
+        R = 1 << cfg["res"]
+        self._x = c.mk_fxp(c.operand("x"))
+        if cfg["kind"] == "int":
+            lo, hi = c.public_int("lo"), c.public_int("hi")
+            self._lo, self._hi = term(lo) * R, term(hi) * R
+        elif cfg["kind"] == "fxp":
+            l, h = c.operand("lo"), c.operand("hi")
+            lo, hi = c.mk_fxp(l), c.mk_fxp(h)
+            self._lo, self._hi = c.v(l), c.v(h)
+        else:
+            lo, hi = -0.75 if (1 << cfg["res"]) >= 4 else -1.0, 1.5
+            self._lo, self._hi = z3.IntVal(int(lo * R)), z3.IntVal(int(hi * R))
+        self._ops = [o for o in (lo, hi) if hasattr(o, "lc")]
+        return c.LinCombFxp.assert_range, (self._x, lo, hi), {}
+
+    def pre(self, c, x, lo, hi):
+        return [(1 << (c.bitlength + 1)) < c.p]
+
+    def post(self, c, r, x, lo, hi):
+        X = c.v(x)
+        q = c.p // 4
+        sm = And(X > -q, X < q, self._lo > -q, self._lo < q, self._hi > -q, self._hi < q)
+        tied = And(c.tied(x), *[c.tied(o) for o in self._ops])
+        return {"E.lower": Implies(And(on(c), tied, sm), self._lo <= X),
+                "E.upper_weak": Implies(And(on(c), tied, sm), X <= self._hi)}
